@@ -76,19 +76,19 @@ package mpt
 //@ ensures result1 != nil ==> result0 == nil && len(result0) == 0
 //@ ensures result1 == nil && mode & ModeGCFlag != 0 ==> result0[len(result0)-5] == 1
 
+// Pending reference-count deltas: one more / one less occurrence of the node with hash h.
+// (Counters are int32; the +-1 is exact away from the ends of the range.)
 //@ func (*Trie).addRef
-//@ requires t != nil && t.refcount != nil && forallkeys(t.refcount, k, has(t.refcount, k) ==> t.refcount[k] != nil)
-//@ requires has(t.refcount, h) ==> t.refcount[h].refcount < 2147483647
+//@ requires t != nil && t.refcount != nil
 //@ modifies t.refcount[h], t.refcount[h].refcount, t.refcount[h].bytes
-//@ ensures[present] old(has(t.refcount, h)) ==> t.refcount[h] == old(t.refcount[h]) && t.refcount[h].refcount == old(t.refcount[h].refcount) + 1
-//@ ensures[absent] !old(has(t.refcount, h)) ==> has(t.refcount, h) && t.refcount[h] != nil && t.refcount[h].refcount == 1 && t.refcount[h].initial == 0 && same(t.refcount[h].bytes, bs)
+//@ ensures[present] old(has(t.refcount, h) && t.refcount[h] != nil) ==> t.refcount[h] == old(t.refcount[h]) && (old(t.refcount[h].refcount) < 2147483647 ==> t.refcount[h].refcount == old(t.refcount[h].refcount) + 1)
+//@ ensures[absent] !old(has(t.refcount, h) && t.refcount[h] != nil) ==> has(t.refcount, h) && t.refcount[h] != nil && fresh(t.refcount[h]) && t.refcount[h].refcount == 1 && t.refcount[h].initial == 0 && same(t.refcount[h].bytes, bs)
 
 //@ func (*Trie).removeRef
-//@ requires t != nil && t.refcount != nil && forallkeys(t.refcount, k, has(t.refcount, k) ==> t.refcount[k] != nil)
-//@ requires has(t.refcount, h) ==> t.refcount[h].refcount > -2147483648
+//@ requires t != nil && t.refcount != nil
 //@ modifies t.refcount[h], t.refcount[h].refcount, t.refcount[h].bytes
-//@ ensures[present] old(has(t.refcount, h)) ==> t.refcount[h] == old(t.refcount[h]) && t.refcount[h].refcount == old(t.refcount[h].refcount) - 1
-//@ ensures[absent] !old(has(t.refcount, h)) ==> has(t.refcount, h) && t.refcount[h] != nil && t.refcount[h].refcount == -1 && t.refcount[h].initial == 0
+//@ ensures[present] old(has(t.refcount, h) && t.refcount[h] != nil) ==> t.refcount[h] == old(t.refcount[h]) && (old(t.refcount[h].refcount) > -2147483648 ==> t.refcount[h].refcount == old(t.refcount[h].refcount) - 1)
+//@ ensures[absent] !old(has(t.refcount, h) && t.refcount[h] != nil) ==> has(t.refcount, h) && t.refcount[h] != nil && fresh(t.refcount[h]) && t.refcount[h].refcount == -1 && t.refcount[h].initial == 0
 
 //@ func (*Trie).updateRefCount
 //@ allow-explicit-panic
@@ -98,3 +98,148 @@ package mpt
 //@ call MemCachedStore).Put requires len(arg2) >= 5 && cnt >= 0 && (cnt == 0 ==> t.mode & ModeGCFlag != 0 && arg2[len(arg2)-5] == 0 && le32s(arg2, len(arg2)-4) == index) && (cnt > 0 ==> le32s(arg2, len(arg2)-4) == cnt)
 //@ ensures[nonneg] result >= 0
 //@ opt frame off
+
+//@ prop C10,C11
+// Canonical shape at the top of a subtrie: an extension never has an empty key and never sits
+// directly on another extension or on nothing (both are merged away), so equal contents
+// give equal tries and equal root hashes.
+//@ spec canTop(n Node) bool = is(n, *ExtensionNode) ==> n.(*ExtensionNode) != nil && len(n.(*ExtensionNode).key) > 0 && !is(n.(*ExtensionNode).next, *ExtensionNode) && !is(n.(*ExtensionNode).next, EmptyNode)
+
+// Hash and serialisation caches of nodes are abstracted away: computing or invalidating them
+// changes nothing these contracts speak about (assumed; the cache fields are written).
+//@ iface Node.Hash
+//@ assumed
+//@ pure
+//@ iface Node.Bytes
+//@ assumed
+//@ pure
+//@ func (*ExtensionNode).Hash
+//@ assumed
+//@ pure
+//@ func (*BranchNode).Hash
+//@ assumed
+//@ pure
+//@ func (*LeafNode).Hash
+//@ assumed
+//@ pure
+//@ func (*LeafNode).Bytes
+//@ assumed
+//@ pure
+//@ func (*HashNode).Hash
+//@ assumed
+//@ pure
+//@ func (*BaseNode).invalidateCache
+//@ assumed
+//@ pure
+
+//@ func NewLeafNode
+//@ ensures result != nil && fresh(result) && same(result.value, value)
+
+//@ func lcpMany
+//@ may-panic
+//@ ensures[short] forall(i, 0, len(kv), len(result) <= len(kv[i].key))
+//@ loop 0 invariant forall(j, 0, 2 + $i, len(p) <= len(kv[j].key))
+
+//@ func NewExtensionNode
+//@ ensures result != nil && fresh(result) && same(result.key, key) && result.next == next
+
+//@ func NewBranchNode
+//@ ensures result != nil && fresh(result) && forall(i, 0, 17, is(result.Children[i], EmptyNode))
+//@ loop 0 invariant forall(i, 0, $i, is(b.Children[i], EmptyNode))
+
+// Nodes read back from the store are canonical at the top (assumed: they were written by this
+// code).
+//@ func (*Trie).getFromStore
+//@ assumed
+//@ pure
+//@ ensures result1 == nil ==> result0 != nil && canTop(result0) && !is(result0, *HashNode)
+
+//@ func (*Trie).newSubTrie
+//@ may-panic
+//@ requires t != nil && t.refcount != nil
+//@ opt frame off
+//@ ensures[plain] len(path) == 0 ==> result == val
+//@ ensures[ext] len(path) != 0 ==> is(result, *ExtensionNode) && result.(*ExtensionNode) != nil && fresh(result.(*ExtensionNode)) && same(result.(*ExtensionNode).key, path) && result.(*ExtensionNode).next == val
+
+//@ func (*Trie).mergeExtension
+//@ may-panic
+//@ requires t != nil && t.refcount != nil && canTop(sub)
+//@ opt frame off
+//@ ensures[canon] result1 == nil ==> canTop(result0)
+//@ ensures[nonnil] result1 == nil && sub != nil ==> result0 != nil
+
+// Batch insertion, function by function: whatever comes back without an error is canonical
+// at the top. The mutual recursion is cut modularly (each call is checked against the
+// callee's contract). addToBranch's clause is stated and used but not proved: it needs the
+// canonicity of every child of a branch already in the trie, a property of the whole stored
+// trie that these per-function contracts do not carry.
+//@ func (*Trie).stripBranch
+//@ may-panic
+//@ opt frame off
+//@ requires t != nil && t.refcount != nil && b != nil && forall(i, 0, 17, b.Children[i] != nil && canTop(b.Children[i]))
+//@ ensures[canon] result1 == nil ==> canTop(result0)
+
+//@ func (*Trie).addToBranch
+//@ assumed
+//@ requires t != nil && t.refcount != nil
+//@ modifies elems(keyValue), elems(Node), elems(uint8), t.refcount
+//@ ensures[canon!] result2 == nil ==> result0 != nil && canTop(result0)
+
+//@ func (*Trie).putBatchIntoNode
+//@ may-panic
+//@ opt frame off
+//@ opt stable t.refcount
+//@ requires t != nil && t.refcount != nil
+//@ ensures[canon] result2 == nil ==> result0 != nil && canTop(result0)
+
+//@ func (*Trie).putBatchIntoLeaf
+//@ may-panic
+//@ opt frame off
+//@ opt stable t.refcount
+//@ requires t != nil && t.refcount != nil
+//@ ensures[canon] result2 == nil ==> result0 != nil && canTop(result0)
+
+//@ func (*Trie).putBatchIntoBranch
+//@ may-panic
+//@ opt frame off
+//@ opt stable t.refcount
+//@ requires t != nil && t.refcount != nil
+//@ ensures[canon] result2 == nil ==> result0 != nil && canTop(result0)
+
+//@ func (*Trie).putBatchIntoHash
+//@ may-panic
+//@ opt frame off
+//@ opt stable t.refcount
+//@ requires t != nil && t.refcount != nil
+//@ ensures[canon] result2 == nil ==> result0 != nil && canTop(result0)
+
+//@ func (*Trie).putBatchIntoEmpty
+//@ may-panic
+//@ opt frame off
+//@ opt stable t.refcount
+//@ requires t != nil && t.refcount != nil
+//@ ensures[canon] result2 == nil ==> result0 != nil && canTop(result0)
+
+//@ func (*Trie).newSubTrieMany
+//@ may-panic
+//@ opt frame off
+//@ opt stable t.refcount
+//@ requires t != nil && t.refcount != nil
+//@ ensures[canon] result2 == nil ==> result0 != nil && canTop(result0)
+
+//@ func (*Trie).putBatchIntoExtensionNoPrefix
+//@ may-panic
+//@ opt frame off
+//@ opt stable t.refcount
+//@ requires t != nil && t.refcount != nil
+//@ ensures[canon] result2 == nil ==> result0 != nil && canTop(result0)
+
+// An extension that receives a batch is always rebuilt: its own reference is released
+// exactly once, whichever way the keys split.
+//@ func (*Trie).putBatchIntoExtension
+//@ may-panic
+//@ opt frame off
+//@ opt stable t.refcount
+//@ requires t != nil && t.refcount != nil
+//@ ensures[canon] result2 == nil ==> result0 != nil && canTop(result0)
+//@ ensures[released] ncalls(removeRef) == 1
